@@ -145,4 +145,4 @@ def run(tier):
 
 
 def replay(path):
-    return 0
+    return core.generic_replay(path)
